@@ -105,6 +105,15 @@ type In struct {
 	L2       []L2Blk `json:"l2"`
 	NamedIdx int64   `json:"named_idx"` // direct call against the root recorded for this L1 info index; -1 = none
 	Tag      string  `json:"tag"`
+	// PrevErr: the certificate database already holds a certificate of height 0 for blocks [1, To] that ended InError and that
+	// was built against the L1 info root recorded for index RootIdx (an OLDER root than the latest finalized one): the flow
+	// then builds its replacement (blocks 1 .. last L2 block), which must be proven against the latest finalized root like
+	// any other certificate
+	PrevErr *PrevErr `json:"prev_err,omitempty"`
+}
+type PrevErr struct {
+	To      uint64 `json:"to"`
+	RootIdx uint32 `json:"root_idx"`
 }
 
 type XExit struct {
@@ -462,6 +471,20 @@ func run(in In, dir string, n int) (out Out) {
 	storage, err := aggsenderdb.NewAggSenderSQLStorage(logger, aggsenderdb.AggSenderSQLStorageConfig{DBPath: filepath.Join(sub, "aggsender.sqlite")})
 	if err != nil {
 		panic(err)
+	}
+	if in.PrevErr != nil {
+		h := &aggsendertypes.CertificateHeader{Height: 0, RetryCount: 0, CertificateID: common.HexToHash("0xc09"), NewLocalExitRoot: common.HexToHash("0x1"),
+			FromBlock: 1, ToBlock: in.PrevErr.To, Status: agglayertypes.InError, CreatedAt: 1, UpdatedAt: 2,
+			CertType: aggsendertypes.CertificateTypePP, CertSource: aggsendertypes.CertificateSourceLocal}
+		zero := common.Hash{}
+		h.PreviousLocalExitRoot = &zero
+		if r, err := l1s.GetL1InfoTreeRootByIndex(ctx, in.PrevErr.RootIdx); err == nil {
+			rh := r.Hash
+			h.FinalizedL1InfoTreeRoot, h.L1InfoTreeLeafCount = &rh, r.Index+1
+		}
+		if err := storage.SaveLastSentCertificate(ctx, aggsendertypes.Certificate{Header: h}); err != nil {
+			panic(err)
+		}
 	}
 	l1q := query.NewL1InfoTreeDataQuerier(client, l1s)
 	key, _ := crypto.ToECDSA(common.LeftPadBytes([]byte{0x42}, 32))
